@@ -57,9 +57,23 @@ def ent(rel, size, sec, nsec, ino):
 def special_ops(s, rng):
     """replacements of a file by a directory or link and back, swaps, inode reuse"""
     a = s.arr
-    k = rng.below(8)
+    k = rng.below(9)
     if k == 7: k = 6
     files = s.existing_files()
+    if k == 8:
+        # a file recorded with a whole-second time-stamp is rewritten within the same second: same size, other bytes,
+        # same seconds, non-zero sub-second part
+        ws = [(d0, r0) for (d0, r0) in files if r0.startswith('whole/') and os.path.getsize(a.path(d0, r0)) > 0]
+        if not ws: return
+        d0, r0 = rng.choice(ws); p0 = a.path(d0, r0); st0 = os.stat(p0)
+        newb = rng.bytes(st0.st_size)
+        if rng.chance(1, 2):
+            with open(p0, 'r+b') as f: f.write(newb)
+        else:
+            os.unlink(p0)
+            with open(p0, 'wb') as f: f.write(newb)
+        t0 = (st0.st_mtime_ns // 10**9) * 10**9 + 1 + rng.below(999_999_998)
+        os.utime(p0, ns=(t0, t0)); s.log('same-second rewrite %s/%r' % (d0, r0)); return
     if not files: return
     d, rel = rng.choice(files)
     p = a.path(d, rel)
@@ -113,10 +127,29 @@ def scenario(exe, root, seed, stats):
     a = e2e.Arr(root, exe, ndisks=1 + rng.below(3), nparity=1 + rng.below(2), ncontent=1, hashsize=16)
     s = sim.Sim(a, rng.fork(), weird_names=rng.chance(1, 2))
     s.populate(3 + rng.below(3))
+    # files with a whole-second time-stamp (zero sub-second part recorded)
+    for i in range(rng.below(3)):
+        dz = rng.choice(a.disks)
+        a.write(dz, 'whole/w%d' % i, rng.bytes(1 + rng.below(3 * a.block)), (s.tick() // 10**9) * 10**9)
+    s.churn = rng.chance(1, 3)       # more copies with preserved stamps, touches and re-touches
     cfg = 'ndisks=%d order=%s uuid=%s scan=%s seed=%d' % (a.ndisks, order.split('-')[-1], '--test-fake-uuid' in opts, 'sequential' if '--test-skip-multi-scan' in opts else 'threads', seed)
     r = s.sync(opts=opts)
     for rnd in range(4):
         if not os.path.exists(a.contents[0]): break
+        if rnd and rng.chance(1, 3):
+            # the previous sync is followed by changes and an INCOMPLETE sync (partial range, killed before the final
+            # content save, or a file touched while it runs): the round then starts from that state
+            s.fs_random(1 + rng.below(3))
+            k = rng.below(3)
+            if k == 0: s.run('sync', '-B', str(1 + rng.below(3)), '--force-empty', '--force-zero', opts=opts)
+            elif k == 1: s.run('sync', '--test-kill-after-sync', '--force-empty', '--force-zero', opts=opts)
+            else:
+                fl = s.existing_files()
+                if fl:
+                    dd, rr = rng.choice(fl)
+                    s.run('sync', '--force-empty', '--force-zero', '--test-run', 'touch "%s"' % a.path(dd, rr), opts=opts)
+            stats['incomplete_syncs'] = stats.get('incomplete_syncs', 0) + 1
+            if not os.path.exists(a.contents[0]): break
         dec = fx.decode(a)
         n_ops = rng.below(6)
         for _ in range(n_ops):
@@ -270,6 +303,52 @@ def scenario(exe, root, seed, stats):
     a.destroy()
     return out or None
 
+def copy_chain(exe, root, seed, stats):
+    """a copy with preserved time-stamp (provisional hashes), an incomplete sync that does not reach it, a time-stamp-only
+    change or identical rewrite of the copy, then a successful sync: diff must exit 0, list must match, check must pass"""
+    rng = e2e.Rng(seed)
+    a = e2e.Arr(root, exe, ndisks=2 + rng.below(2), nparity=1 + rng.below(2), ncontent=1, hashsize=rng.choice([16, 8]))
+    s = sim.Sim(a, rng.fork(), weird_names=False)
+    s.populate(2 + rng.below(3))
+    big = rng.bytes(a.block * (3 + rng.below(6)) + rng.below(2) * 33)
+    t0 = s.tick()
+    a.write('d1', 'big.bin', big, t0)
+    if s.sync().rc != 0:
+        a.destroy(); return None
+    dst = rng.choice(['d2/big.bin', 'd2/copies/big.bin', 'd1/copies/big.bin'])
+    dd, drel = dst.split('/', 1)
+    a.write(dd, drel, big, t0); s.log('cp -p d1/big.bin %s' % dst)
+    how = rng.below(3)
+    if how == 0: s.run('sync', '--test-run', 'touch "%s"' % a.path('d1', 'big.bin'))
+    elif how == 1: s.run('sync', '-B', '1')
+    else: s.run('sync', '--test-run', 'touch "%s"' % a.path(dd, drel))
+    k = rng.below(3)
+    p = a.path(dd, drel)
+    if k == 0:
+        t = s.tick(); os.utime(p, ns=(t, t)); s.log('touch %s' % dst)
+    elif k == 1:
+        os.unlink(p); a.write(dd, drel, big, s.tick()); s.log('recreate %s with the same bytes' % dst)
+    else:
+        with open(p, 'r+b') as f: f.write(big)
+        t = s.tick(); os.utime(p, ns=(t, t)); s.log('rewrite %s in place with the same bytes' % dst)
+    stats['copy_chains'] = stats.get('copy_chains', 0) + 1
+    r = s.sync()
+    if r.rc != 0:
+        r = s.sync()
+    cfg = 'copy-chain ndisks=%d nparity=%d hashsize=%d seed=%d' % (a.ndisks, a.nparity, a.hashsize, seed)
+    problem = None
+    if r.rc == 0:
+        d = s.run('diff')
+        if d.rc != 0:
+            problem = '[copy-chain] after a successful sync diff exits %d' % d.rc
+        else:
+            c = a.cmd('check')
+            if c.rc != 0:
+                problem = '[copy-chain] check fails after a successful sync (exit %d): %s' % (c.rc, [t for t in c.tags if t.startswith('error') or t.startswith('parity_error')][:3])
+    hist = '\n'.join(s.history)
+    a.destroy()
+    return [('%s; %s' % (problem, cfg), '%s\n%s\nhistory:\n%s' % (problem, cfg, hist))] if problem else None
+
 def main(tier, seed):
     chk = vlib.Check('C11', 'proof', tier, seed)
     chk.assumptions = ['the classification model covers regular files; hardlinks, links and empty directories are judged by the end-to-end predicates only',
@@ -290,8 +369,9 @@ def main(tier, seed):
     stats = {'diffs': 0, 'syncs': 0, 'failed_syncs': 0, 'classes': {}, 'counter_mismatch': 0, 'reread_checked': 0}
     def job(i):
         return scenario(exe, os.path.join(vlib.scratch(), 'sc%d' % i), seed * 100000 + 99000 + i, stats)
+    ncc = 24 if tier == 'quick' else 240
     with ThreadPoolExecutor(vlib.NCPU) as ex:
-        res = list(ex.map(job, range(n)))
+        res = list(ex.map(job, range(n))) + list(ex.map(lambda i: copy_chain(exe, os.path.join(vlib.scratch(), 'cc%d' % i), seed * 100000 + 99500 + i, stats), range(ncc)))
     k = 0
     for r in res:
         if r:
